@@ -19,7 +19,7 @@ func init() {
 		Exhaustive: "adversary (12 kinds) x every stall offset k of the scripted frame x local state (11) x call (Close, CloseNow, CloseRead self-close) x role"})
 }
 
-var c09Adv = []string{"silent", "stall-data2", "stall-data4", "stall-data10", "stall-close", "flood", "huge", "never-reads", "half-close", "echo", "never-reads-sends-pongs", "late-ping-stall"}
+var c09Adv = []string{"silent", "stall-data2", "stall-data4", "stall-data10", "stall-close", "flood", "huge", "never-reads", "half-close", "echo", "never-reads-sends-pongs", "late-ping-stall", "reads-at-deadline"}
 var c09State = []string{"idle", "reader-blocked", "half-read-in-frame", "half-read-frame-end", "closeread", "writer-blocked", "ping-waiting", "closeread+ping-waiting", "after-writer-misuse", "closed-then-closeread", "write-waiting-for-open-writer"}
 var c09Call = []string{"Close", "CloseNow", "none"}
 var c09EchoDelays = []time.Duration{0, 4900 * time.Millisecond, 5100 * time.Millisecond}
@@ -67,6 +67,9 @@ func enumC09(tier string) [][]uint32 {
 			if adv == 9 {
 				ks = []int{0, 1, 2}
 			}
+			if adv == 12 {
+				ks = []int{0, 1}
+			}
 			for _, k := range ks {
 				for st := 0; st < len(c09State); st++ {
 					for call := 0; call < 3; call++ {
@@ -97,6 +100,8 @@ func runC09(r *Run) {
 		k = 1 + t.Draw(n-1)
 	case adv == 9:
 		k = t.Draw(3)
+	case adv == 12:
+		k = t.Draw(2)
 	default:
 		t.Draw(1)
 	}
@@ -151,8 +156,14 @@ func runC09(r *Run) {
 	r.S.MaxSteps = 20000
 	r.S.Stick = []int{0, 60}[t.Draw(2)]
 	r.S.Count("fault.adv-" + c09Adv[adv])
+	// tier 2: the library's own hand-over points (a timeout watcher on its way into
+	// close() while the frame writer it watched completes, two closers, ...)
+	r.DrawYields()
 
-	neverReads := adv == 7 || adv == 10
+	// (12: the peer does not read until the very instant at which a write timeout
+	// of the library is due - the 5 s of the Close frame, or the bystander's 1 s -
+	// and then drains everything and echoes)
+	neverReads := adv == 7 || adv == 10 || adv == 12
 	if neverReads || st == 5 {
 		rc.Lib.Out().Cap = 4096
 		if neverReads && st != 5 && (zeroWindow || adv == 10) {
@@ -295,7 +306,7 @@ func runC09(r *Run) {
 		// write on the closed Writer, a zero-length Write (the second Close and the
 		// late Write return errors; nothing of it may affect a later Close)
 		r.S.Go("misuser", func() {
-			if adv != 7 && adv != 10 {
+			if adv != 7 && adv != 10 && adv != 12 {
 				if w, err := c.Writer(bg, websocket.MessageText); err == nil {
 					w.Write([]byte("hello"))
 					w.Close()
@@ -387,9 +398,28 @@ func runC09(r *Run) {
 	}
 
 	// ---- the adversary
-	reads := !neverReads
+	reads := !neverReads || adv == 12
 	if reads {
 		r.S.Go("peer-rd", func() {
+			if adv == 12 {
+				r.S.ParkE("a.peer-rd.late", func() bool { return callStarted || call == 2 }, nil)
+				target := t0 + 5*time.Second
+				if by != 0 && k%2 == 0 {
+					r.S.ParkE("a.peer-rd.by", func() bool { return byStart != never || t1 != never }, nil)
+					if byStart != never {
+						target = byStart + time.Second
+					}
+				}
+				if call == 2 {
+					target = 5 * time.Second
+				}
+				r.S.Sleep(target - r.S.Now())
+				r.S.Lock()
+				rc.Lib.Out().Cap = 4096 // the window opens
+				r.S.Unlock()
+				r.S.Kick()
+				r.S.Count("probe.peer-reads-at-a-write-deadline")
+			}
 			if st == 5 {
 				// keep the pipe full until the call has started
 				r.S.ParkE("a.peer-rd.hold", func() bool { return callStarted || call == 2 }, nil)
@@ -408,6 +438,10 @@ func runC09(r *Run) {
 					r.S.Sleep(4500 * time.Millisecond)
 					b := peer.Encode(wsref.Frame{Fin: true, Opcode: wsref.OpPing, Payload: []byte("a ping that never ends")})
 					peer.SendBytes(b[:len(b)-5])
+					continue
+				}
+				if f.Opcode == wsref.OpClose && adv == 12 {
+					peer.Send(wsref.Frame{Fin: true, Opcode: wsref.OpClose, Payload: f.Payload})
 					continue
 				}
 				if f.Opcode == wsref.OpClose && (adv == 9 || call == 2 && adv == 0 && k == 0) {
